@@ -113,11 +113,11 @@ class SetupCfgWriter(DependencyWriter):
             new_deps = [
                 f"{formatting}{dep.requirement}{dep_sep}" for dep in dependencies_to_add
             ]
-            new_lines = (
-                original_lines[: last_dep_idx + 1]
-                + new_deps
-                + original_lines[last_dep_idx + 1 :]
-            )
+            kept_lines = original_lines[: last_dep_idx + 1]
+            if not kept_lines[-1].endswith("\n"):
+                # the last requirement is the last line of a file without final newline
+                kept_lines[-1] += "\n"
+            new_lines = kept_lines + new_deps + original_lines[last_dep_idx + 1 :]
         else:
             # new_deps added to existing deps line
             new_dep = ",".join(
